@@ -441,12 +441,17 @@ func lemmaOriginRoundTrip(p []byte) ([]byte, int) {
 //@ func (gbf GenBankFields) Slice(start, end int) (out any)
 //@   prop C03 C11
 //@   requires 0 <= start && start < end && end <= 1099511627776
+//@   ghost OW(j int) int
 //@   callpre Sprintf(f, a): f == "%d to %d" ==> len(a) == 2 && 1 <= a[0].(int) && a[0].(int) <= a[1].(int) && a[1].(int) <= end - start
 //@   assigns nothing
 //@   loop 1: invariant fresh(refs)
 //@   loop 1: decreases len(gbf.References) - idx1
-//@   loop 2: invariant fresh(olap) && (forall k in 0..len(olap): rangedOverlap(olap[k], start, end) && olap[k].Start < olap[k].End)
+//@   loop 2: invariant fresh(olap) && refof(olap) != refof(locs) && (forall k in 0..len(olap): rangedOverlap(olap[k], start, end) && olap[k].Start < olap[k].End)
 //@   loop 2: invariant forall k in 0..len(locs): locs[k].Start < locs[k].End
+//@   loop 2: ghost_init OW(j) := 0 - 1
+//@   loop 2: ghost_update OW(j) := ite(j == idx2 - 1 && len(olap) > iter_old(len(olap)), len(olap) - 1, OW(j))
+//@   loop 2: invariant forall j in 0..idx2: rangedOverlap(locs[j], start, end) ==> 0 <= OW(j) && OW(j) < len(olap) && olap[OW(j)] == locs[j]
+//@   loop 2: exit forall j in 0..len(locs): rangedOverlap(locs[j], start, end) ==> 0 <= OW(j) && OW(j) < len(olap) && olap[OW(j)] == locs[j]
 //@   loop 2: decreases len(locs) - idx2
 //@   loop 3: invariant fresh(ss) && len(ss) == len(olap) && (forall k in 0..len(olap): rangedOverlap(olap[k], start, end) && olap[k].Start < olap[k].End)
 //@   loop 3: decreases len(olap) - i
